@@ -67,6 +67,9 @@ func (busEngine) Generate(prop string, r *simrt.RNG, tier string, run int) *simr
 		}
 		sc.Ops = append(sc.Ops, op)
 	}
+	if r.Chance(1, 3) {
+		sc.Knobs["stalled"] = 1
+	}
 	// closers: I=[what (0 responder client, 1 whole queue), topic, twice]
 	for k, n := 0, r.Range(0, 2); k < n; k++ {
 		sc.Ops = append(sc.Ops, simrt.Op{K: "closer", I: []int64{int64(r.Weighted(3, 1)), int64(r.Intn(nTopics)), int64(r.Intn(2))}})
@@ -303,6 +306,42 @@ func (busEngine) run(ctx *simrt.Ctx) *simrt.Violation {
 				}
 			})
 		}
+	}
+	// A subscriber that stopped reading while its topic keeps receiving: both of
+	// the topic's buffers fill up. Nothing else on the bus may be affected, and
+	// the final queue.Close must still return.
+	if sc.Knob("stalled", 0) == 1 {
+		stall := q.Client()
+		stall.Sub("stalled-topic")
+		var flooded int32
+		fc := q.Client()
+		sched.Go("flooder", func(a *simrt.Actor) {
+			full := 0
+			for k := 0; k < 200 && full < 6; k++ {
+				m := fc.NewMessage("stalled-topic", 2000, &payload{ReqID: -int64(k) - 1, From: "flooder"})
+				var err error
+				if k%2 == 0 {
+					err = fc.SendTimeout(m, true, 0)
+				} else {
+					err = fc.Send(m, false)
+				}
+				if err != nil {
+					full++
+				}
+				if k%16 == 0 {
+					a.Yield("flood")
+				}
+			}
+			w.mu.Lock()
+			ctx.Faults["subscriber_stalled_buffers_full"]++
+			w.mu.Unlock()
+			atomic.StoreInt32(&flooded, 1)
+		})
+		// (its client is never closed by anybody: Close waits for the subscriber's
+		// pump, which waits for somebody to read; what must work is the final
+		// queue.Close, which closes this topic like every other, and all the other
+		// topics meanwhile)
+		_ = stall
 	}
 	// phase 1: run the traffic
 	dead := sched.Run(4000)
